@@ -243,6 +243,12 @@ def run(res, replay=None):
     for d, w in pressure.tmp_page_fill_join(res):
         if len(res.oracle_failures) < 5:
             res.oracle_failures.append((d, w))
+    # the temporary tuple page of the hash join: byte-level model (Model/TmpPage.v, Props/C11TmpPage.v) against TmpTuplePage (verifharness tmppage)
+    import tmppagecorr
+    tmppagecorr.run_corr(res, random.Random(res.seed * 7919 + 11), 120 if res.tier == "quick" else 1500)
+    for d, w in pressure.wide_joined_rows(res, repeats=10 if res.tier == "quick" else 40):
+        if len(res.oracle_failures) < 5:
+            res.oracle_failures.append((d, w))
     for d, w in pressure.tiny_pool_join(res, rng, 12):
         if len(res.oracle_failures) < 5:
             res.oracle_failures.append((d, w))
